@@ -47,6 +47,8 @@ type Exec struct {
 	Tag   string            `json:"t,omitempty"`  // evidence tag (operator x type pair, function, …)
 	Slow  bool              `json:"sl,omitempty"` // legitimately slow (sleeping director): wall time recorded as a tag only
 	Alts  []Alt             `json:"a,omitempty"`  // parts of a combination, for localising a violation
+	Iso   bool              `json:"i,omitempty"`  // run in a child process of the worker (may legitimately be able to kill the process)
+	Test  string            `json:"ts,omitempty"` // tester: complete test file ("" = Body wrapped as `// @scope: <Scope>` + sub test_c08)
 }
 
 // Alt is one part of a combined program run alone.
@@ -453,10 +455,26 @@ func runTester(e *Exec) (to testerObs, program string) {
 	if mainVCL == "" {
 		mainVCL = stdDecls + mainTail
 	}
-	test := expand(e.Body)
-	program = "// main.test.vcl\n" + e.Body
+	rawTest := e.Test
+	if rawTest == "" {
+		rawTest = testSub(e.Scope, e.Body)
+	}
+	test := expand(rawTest)
+	program = "// main.test.vcl\n" + rawTest
 	if e.Main != "" {
 		program = "// main.vcl\n" + e.Main + "\n" + program
+	}
+	program += modsText(e)
+	if e.Lint {
+		lr := lintProgram(lintSourceSub(expand(e.Main), e.Scope, expand(e.Body)))
+		if lr.parseErr != "" {
+			to.class, to.msg = "parse-error", lr.parseErr
+			return
+		}
+		if !lr.accepted {
+			to.class, to.msg = "lint-rejected", strings.Join(lr.errs, " | ")
+			return
+		}
 	}
 	dir, err := os.MkdirTemp(filepath.Join(fw.Verif, ".build", "tmp"), "c08-tester-")
 	if err != nil {
@@ -477,7 +495,7 @@ func runTester(e *Exec) (to testerObs, program string) {
 		to.class, to.msg = "harness-error", err.Error()
 		return
 	}
-	tc := &config.TestConfig{Filter: "*.test.vcl", Timeout: 1}
+	tc := &config.TestConfig{Filter: "*.test.vcl"} // Timeout 0 = the tester's default of 10 minutes: only the framework watchdog (120 s) decides about hangs
 	opts := []icontext.Option{icontext.WithResolver(rslv[0]), icontext.WithMaxBackends(0), icontext.WithMaxAcls(0), icontext.WithOverrideVariables(map[string]any{})}
 	var fac *tester.TestFactory
 	var rerr error
